@@ -12,9 +12,13 @@ import MW.Lemmas.RemoveFrame
 import MW.Lemmas.RemoveProgress
 import MW.Lemmas.Layout
 import MW.Model.Import
+import MW.Lemmas.RemoveMain
+import MW.Lemmas.RemoveHistory
+import MW.Lemmas.RemoveEx
 namespace MW.Props.C08
 open MW MW.Model.Ledger MW.Model.Remove MW.Lemmas.RemoveScan MW.Lemmas.RemoveStep MW.Lemmas.RemoveFrame
   MW.Lemmas.RemoveProgress
+open MW.Lemmas.RemoveMain (run RunRes)
 
 -- ------------------------------------------------------------------ remove_erases
 
@@ -328,25 +332,171 @@ theorem remove_pending_kept (limit : Nat) (c : Ctx) (w : Wid) (addrs : List Addr
       subst ho
       rw [h1]; exact hk2
 
-/-- FULL statement of "the survivors stay correct under LATER reorganisations", kept type-checked: rolling back
-    after a removal step gives, on every other wallet's projection, what rolling back before it gives.
-    NOT PROVED.  With C01's library (`Inv c s chain`, `rollback_connect`, `reorg_reaches`) the natural route is no longer
-    a frame argument through `rollback` but `remove ⊨ project`: if `Inv c s chain` holds and the finishing step yields
-    `o`, then `Inv c' o.s chain` for `c'` = `c` without the removed keystore — after which every later reorganisation is
-    C01's `reorg_reaches` for `c'`.  STILL MISSING for that: (1) `bookOf p own' chain` is the restriction of
-    `bookOf p own chain` to the other wallets (credits / debits / unspent / deposit records of other script hashes,
-    tx and block records of exactly the transactions that touch another wallet) — a statement about MW.Spec.Books alone;
-    (2) `removable … tx = false ↔ tx touches another wallet's books` given `Agree` (the credit-based test of
-    `spendsCreditOfOtherWallet` against the books' `touches`); (3) `Inv`'s `AllReady` hypothesis: between `RemoveWallet`
-    and the finishing step the flagged wallet is not ready while its keystore exists, the same gap as for an importing
-    wallet (MW.Props.C07.import_exact_full, item 2).  `remove_frames` already gives the store-level half of (1)+(2):
-    every record of another wallet survives, nothing of the removed wallet does (`remove_erases`).  The three-way
-    differential runs compare the survivors with the chain specification after reorganisations that follow a removal. -/
+/-- The ORIGINAL full statement of "the survivors stay correct under LATER reorganisations", kept type-checked: rolling
+    back after a removal step gives, on every other wallet's projection, what rolling back before it gives — for
+    ARBITRARY stores, with no hypothesis.  NOT PROVED in this form and not expected to hold in it: without store
+    invariants the credit scan can delete another wallet's credit (two entries under one key: see the last `example` of this file), and `rollback` has error exits that a removal can open or close.  It is SUPERSEDED by the route
+    `remove ⊨ project` below (`remove_projects`, `remove_run_projects`, `remove_then_history_correct`): under C01's
+    invariant `Inv c s chain` the removal leaves `Inv c' s' chain` for the context without the removed keystore, and then
+    EVERY later block, reorganisation and query is covered by C01's theorems for `c'` — which is strictly more than this
+    statement asks (success of the rollback, every bucket, any number of later events). -/
 def remove_frames_rollback_full : Prop :=
   ∀ (limit : Nat) (c : Ctx) (w w' : Wid) (addrs : List Addr) (s : Store) (o : StepOut) (height : Nat) (r r' : Store),
     w' ≠ w → removeStep limit c w addrs s = some o →
     rollback c s height = .ok r → rollback c o.s height = .ok r' →
     (∀ e, e.1.1 = w' → (e ∈ r'.unspent ↔ e ∈ r.unspent)) ∧ AMap.get r'.balance w' = AMap.get r.balance w'
+
+-- ------------------------------------------------------------------ remove ⊨ project  (C01's invariant through a removal)
+
+open MW.Spec.Chain MW.Spec.Books MW.Lemmas.Ledger MW.Lemmas.RemoveProj MW.Lemmas.RemoveInv in
+/-- **books_minus** (a statement about MW.Spec.Books alone).  For a valid chain, the books for the keystore view
+    without wallet `w` are the books for the full view restricted to the other wallets: the ledger list filtered (same
+    order), the credits of other script hashes, their debits, the deposit records keyed by other wallets, and the tx
+    records of exactly the transactions another wallet needs (`NeededBy`). -/
+theorem books_minus {own own' : Own} {w : Wid} (hO : OwnMinus own own' w) (p : Params) {chain : List Block}
+    (hV : ChainValid own chain) : BookMinus own own' w (occs chain) (bookOf p own chain) (bookOf p own' chain) :=
+  bookOf_minus hO p hV
+
+open MW.Spec.Chain MW.Spec.Books MW.Lemmas.Ledger MW.Lemmas.RemoveProj MW.Lemmas.RemoveBooks in
+/-- … and the block records are a function of the tx records (for ANY keystore view): a block record lists, in block
+    order, the transactions of the block that have a tx record — so the block records of the restricted books are the
+    full ones filtered by "still has a tx record", which is what checkBlockRecordAfterTxRemoved computes -/
+theorem books_blocks_by_txrecs (p : Params) (own : Own) (chain : List Block) (hV : ChainValid own chain)
+    (hH : HeightsOK chain) (h : Nat) :
+    (bookOf p own chain).blocks h = blockRecOf (fun k => ((bookOf p own chain).txrecs k).isSome) chain h :=
+  blocks_eq_blockRecOf p own chain hV hH h
+
+open MW.Lemmas.Ledger MW.Lemmas.RemoveProj in
+/-- a chain valid for the full keystore view is valid for the view without `w` -/
+theorem chain_valid_minus {own own' : Own} {w : Wid} (hO : OwnMinus own own' w) {chain : List Block}
+    (h : ChainValid own chain) : ChainValid own' chain := chainValid_minus hO h
+
+open MW.Lemmas.Ledger MW.Lemmas.RemoveProj in
+/-- the driver's `dropKeystore` (filter on the wallet component) produces such a view -/
+theorem own_minus_filter {own : Own} (hn : KeysNodup own) (w : Wid) :
+    OwnMinus own (own.filter (fun e => e.2.1 != w)) w := ownMinus_filter hn w
+
+open MW.Spec.Books MW.Lemmas.Ledger MW.Lemmas.RemoveInv in
+/-- **remove_projects** (`remove ⊨ project`, a wallet removed in ONE transaction — what the code does after the D30
+    repair for a wallet with fewer credits than the step size).  If the store holds the books of `chain` (C01's `Inv`),
+    its credits bucket has one entry per key, no unmined credit belongs to a transaction of the chain, and `addrs` are the
+    script hashes the keystore view gives to `w` (`RemHyp`), then after the finishing removal step the store holds the
+    books of `chain` for the keystore view WITHOUT `w` — C01's invariant for the context `c'`, for any wallet list
+    `ws'` ⊆ `c.wallets`.  (The AllReady gap: `Inv` for the input needs no readiness of `w` — a flagged wallet is simply
+    not ready — and in `c'` the removed wallet owns nothing: `remove_all_ready`.) -/
+theorem remove_projects (limit : Nat) {c : Ctx} {w : Wid} {addrs : List Addr} {own' : Own} {chain : List Block}
+    (H : RemHyp c w addrs own' chain) {s : Store} (hI : Inv c s chain)
+    (hn : KeysNodup s.credits) (hp : ∀ e ∈ s.pendCred, e.1.1 ∉ idsOf (occs chain))
+    (ws' : List Wid) (hws : ∀ x ∈ ws', x ∈ c.wallets)
+    {o : StepOut} (h : removeStep limit c w addrs s = some o) (hf : o.finish = true) :
+    Inv { c with own := own', wallets := ws' } o.s chain :=
+  MW.Lemmas.RemoveMain.remove_projects limit H hI hn hp ws' hws h hf
+
+open MW.Spec.Books MW.Lemmas.Ledger MW.Lemmas.RemoveInv in
+/-- after the finishing step every owner of an address of `c'` is ready, if the OTHER owners were -/
+theorem remove_all_ready (limit : Nat) {c : Ctx} {w : Wid} {addrs : List Addr} {own' : Own} {chain : List Block}
+    (H : RemHyp c w addrs own' chain) {s : Store} (ws' : List Wid)
+    (hAR : ∀ a w' ch, AMap.get c.own a = some (w', ch) → w' ≠ w → (readyWallets s ws').contains w' = true)
+    {o : StepOut} (h : removeStep limit c w addrs s = some o) (hf : o.finish = true) :
+    AllReady own' (readyWallets o.s ws') := MW.Lemmas.RemoveMain.finish_allReady limit H ws' hAR h hf
+
+open MW.Spec.Books MW.Lemmas.Ledger MW.Lemmas.RemoveInv in
+/-- **remove_mid.** The MULTI-STEP case: `Mid` — every mined bucket lies between the books for the full keystore view and
+    the books for the view without `w`; what is missing belongs to `w`; every leftover of `w` is still reachable from a
+    credit of `w` — follows from `Inv` and is kept by EVERY removal step that does not finish … -/
+theorem remove_mid_of_inv {c : Ctx} {w : Wid} {addrs : List Addr} {own' : Own} {chain : List Block}
+    (H : RemHyp c w addrs own' chain) {s : Store} (hI : Inv c s chain)
+    (hn : KeysNodup s.credits) (hp : ∀ e ∈ s.pendCred, e.1.1 ∉ idsOf (occs chain)) : Mid c w addrs own' s chain :=
+  inv_to_mid H hI hn hp
+
+open MW.Lemmas.RemoveInv in
+theorem remove_mid_step (limit : Nat) {c : Ctx} {w : Wid} {addrs : List Addr} {own' : Own} {chain : List Block}
+    (H : RemHyp c w addrs own' chain) {s : Store} (hM : Mid c w addrs own' s chain)
+    {o : StepOut} (h : removeStep limit c w addrs s = some o) (hf : o.finish = false) : Mid c w addrs own' o.s chain :=
+  MW.Lemmas.RemoveMain.parked_step limit H hM h hf
+
+open MW.Spec.Books MW.Lemmas.Ledger MW.Lemmas.RemoveInv in
+/-- … in every such intermediate state (follower running, restarts: a step reads the persistent store only) what the
+    queries read for another wallet `w'` — unspent index, the credits of its coins, balance — is what the books for the
+    view without `w` say (the survivors' projection) … -/
+theorem remove_mid_survivors {c : Ctx} {w : Wid} {addrs : List Addr} {own' : Own} {chain : List Block}
+    (H : RemHyp c w addrs own' chain) {s : Store} (hM : Mid c w addrs own' s chain) {w' : Wid} (hw' : w' ≠ w) :
+    (∀ tx idx, AMap.get s.unspent (w', tx, idx) =
+      ((lookupU (bookOf c.p own' chain).L tx idx).filter (fun u => decide (u.wallet = w'))).map (·.blk)) ∧
+    (∀ k cr, (bookOf c.p own' chain).credits k = some cr → AMap.get s.credits k = some cr) ∧
+    ((readyWallets s c.wallets).contains w' = true →
+      AMap.get s.balance w' = some (totalU (bookOf c.p own' chain).L w')) :=
+  MW.Lemmas.RemoveMain.mid_survivors H hM hw'
+
+open MW.Spec.Books MW.Lemmas.Ledger MW.Lemmas.RemoveInv in
+/-- … and **remove_run_projects**: the worker loop, however many transactions it takes (any step size), ends in C01's
+    invariant for the context without the removed keystore -/
+theorem remove_run_projects (limit : Nat) {c : Ctx} {w : Wid} {addrs : List Addr} {own' : Own} {chain : List Block}
+    (H : RemHyp c w addrs own' chain) (ws' : List Wid) (hws : ∀ x ∈ ws', x ∈ c.wallets)
+    (n : Nat) {s s' : Store} (hI : Inv c s chain) (hn : KeysNodup s.credits)
+    (hp : ∀ e ∈ s.pendCred, e.1.1 ∉ idsOf (occs chain)) (h : run limit c w addrs n s = .done s') :
+    Inv { c with own := own', wallets := ws' } s' chain :=
+  MW.Lemmas.RemoveMain.run_projects limit H ws' hws n (inv_to_mid H hI hn hp) h
+
+open MW.Spec.Chain MW.Spec.Books MW.Lemmas.Ledger MW.Lemmas.RemoveInv MW.Lemmas.RemoveHistory in
+/-- **remove_then_history_correct.**  Removal followed by ANY history of node events (extend, reorganise to any branch)
+    and handler steps, in the environment without the removed keystore: whenever no notification is pending the wallet
+    holds exactly the books of the node's best chain for the remaining keystores and the follower's tip is the node's
+    tip.  (`RunHyp` for the environment without `w`: C01's hypotheses — valid chains of known blocks from one genesis,
+    every remaining owner ready.) -/
+theorem remove_then_history_correct (limit : Nat) {e : Env} {G : Block} {chain : List Block} {w : Wid}
+    {addrs : List Addr} {own' : Own} (H : RemHyp (e.ctx chain) w addrs own' chain)
+    {s : Store} (hI : Inv (e.ctx chain) s chain) (hn : KeysNodup s.credits)
+    (hp : ∀ x ∈ s.pendCred, x.1.1 ∉ idsOf (occs chain))
+    {o : StepOut} (h : removeStep limit (e.ctx chain) w addrs s = some o) (hf : o.finish = true)
+    (v : Vol) (hv : v.best = tipMeta chain) (evs : List Ev)
+    (HR : RunHyp (envMinus e own') G { chain := chain, queue := [], s := o.s, v := v } evs) :
+    (runW (envMinus e own') { chain := chain, queue := [], s := o.s, v := v } evs).queue = [] →
+      Inv ((envMinus e own').ctx (runW (envMinus e own') { chain := chain, queue := [], s := o.s, v := v } evs).chain)
+          (runW (envMinus e own') { chain := chain, queue := [], s := o.s, v := v } evs).s
+          (runW (envMinus e own') { chain := chain, queue := [], s := o.s, v := v } evs).chain ∧
+        (runW (envMinus e own') { chain := chain, queue := [], s := o.s, v := v } evs).v.best =
+          tipMeta (runW (envMinus e own') { chain := chain, queue := [], s := o.s, v := v } evs).chain :=
+  MW.Lemmas.RemoveHistory.remove_then_history_correct limit H hI hn hp h hf v hv evs HR
+
+open MW.Spec.Chain MW.Spec.Books MW.Lemmas.Ledger MW.Lemmas.RemoveInv MW.Lemmas.RemoveHistory in
+/-- … observed: for every remaining ready wallet the reported unspent outputs are — as a multiset — the spec ledger's
+    (`utxosOf`), WalletBalance is the spec's, and the spec ledger for the remaining keystores IS `ledgerOf` of the node's
+    chain for the ORIGINAL keystore view minus the removed wallet's coins -/
+theorem remove_then_history_observed (limit : Nat) {e : Env} {G : Block} {chain : List Block} {w : Wid}
+    {addrs : List Addr} {own' : Own} (H : RemHyp (e.ctx chain) w addrs own' chain)
+    {s : Store} (hI : Inv (e.ctx chain) s chain) (hn : KeysNodup s.credits) (hnu : KeysNodup s.unspent)
+    (hp : ∀ x ∈ s.pendCred, x.1.1 ∉ idsOf (occs chain))
+    {o : StepOut} (h : removeStep limit (e.ctx chain) w addrs s = some o) (hf : o.finish = true)
+    (v : Vol) (hv : v.best = tipMeta chain) (evs : List Ev)
+    (HR : RunHyp (envMinus e own') G { chain := chain, queue := [], s := o.s, v := v } evs)
+    (hq : (runW (envMinus e own') { chain := chain, queue := [], s := o.s, v := v } evs).queue = [])
+    (hlen : (runW (envMinus e own') { chain := chain, queue := [], s := o.s, v := v } evs).chain.length < 2^32)
+    (hcb : e.p.cbMaturity < 2^32)
+    (hstk : ∀ x ∈ ledgerOf own' (runW (envMinus e own') { chain := chain, queue := [], s := o.s, v := v } evs).chain,
+      ∀ f, x.cls = .stk f → f + 1 < 2^32)
+    (w' : Wid) (hw' : (readyWallets o.s e.wallets).contains w' = true) (mc : Nat) :
+    ((coinsOf (runW (envMinus e own') { chain := chain, queue := [], s := o.s, v := v } evs).s w').map
+        (obsM (runW (envMinus e own') { chain := chain, queue := [], s := o.s, v := v } evs).s.syncedTo)).Perm
+      ((utxosOf own' (runW (envMinus e own') { chain := chain, queue := [], s := o.s, v := v } evs).chain w').map
+        (obsS e.p ((runW (envMinus e own') { chain := chain, queue := [], s := o.s, v := v } evs).chain.length - 1))) ∧
+    walletBalance (runW (envMinus e own') { chain := chain, queue := [], s := o.s, v := v } evs).s w' mc =
+      some (Spec.Chain.balance e.p own' (runW (envMinus e own') { chain := chain, queue := [], s := o.s, v := v } evs).chain w' mc) ∧
+    ledgerOf own' (runW (envMinus e own') { chain := chain, queue := [], s := o.s, v := v } evs).chain =
+      (ledgerOf e.own (runW (envMinus e own') { chain := chain, queue := [], s := o.s, v := v } evs).chain).filter
+        (fun x => decide (x.wallet ≠ w)) :=
+  MW.Lemmas.RemoveHistory.remove_then_history_observed limit H hI hn hnu hp h hf v hv evs HR hq hlen hcb hstk w' hw' mc
+
+/-- non-vacuity of `remove_projects` / `RemHyp` / `Inv` / `KeysNodup` / the pending hypothesis: a two-wallet store BUILT
+    BY THE MODEL (fresh store + `connectAll` over a chain with the D11 transaction) meets them all, the removal of W2
+    finishes in one step, and the conclusion holds for it (MW.Lemmas.RemoveEx) -/
+example := @MW.Lemmas.RemoveEx.remHyp
+example := @MW.Lemmas.RemoveEx.inv
+example := @MW.Lemmas.RemoveEx.st_nodup
+example := @MW.Lemmas.RemoveEx.st_pend
+example := @MW.Lemmas.RemoveEx.st_finishes
+example := @MW.Lemmas.RemoveEx.st_after
+example := @MW.Lemmas.RemoveEx.ex_projects
 
 -- ------------------------------------------------------------------ remove_resumes
 
@@ -375,19 +525,8 @@ theorem remove_progress (limit : Nat) (hl : limit > 0) (c : Ctx) (w : Wid) (addr
       unfold left at this ⊢
       rw [h1, ← h2]; exact this
 
-/-- the worker loop of asyncRemove, restarted or not: every step starts from the persistent store alone
-    (`removeStep` has no volatile argument — a restart between two steps changes nothing it reads) -/
-inductive RunRes
-  | done (s : Store)
-  | failed
-  | outOfFuel
-
-def run (limit : Nat) (c : Ctx) (w : Wid) (addrs : List Addr) : Nat → Store → RunRes
-  | 0, _ => .outOfFuel
-  | n + 1, s =>
-    match removeStep limit c w addrs s with
-    | none => .failed
-    | some o => if o.finish then .done o.s else run limit c w addrs n o.s
+-- the worker loop of asyncRemove (`RunRes`, `run`: restarted or not, every step starts from the persistent store alone —
+-- `removeStep` has no volatile argument) is defined in MW.Lemmas.RemoveMain, where `run_projects` is proved about it.
 
 /-- **remove_resumes.** From any store — in particular the one a crash or shutdown between two steps left
     behind — the removal ends after at most (credits of the wallet + 1) steps: either it completes, or a step's
@@ -611,5 +750,13 @@ example : (match run 1 ctx "W2" ["A2"] 3 st with | .done s' => some (s'.credits.
 example : (removeWallet 0 ["W1", "W2"] true st "W1").1 = .ok := by decide
 example : (removeWallet 0 ["W1"] true { st with status := [("W1", ⟨some 5, false⟩)] } "W1").1 = .unready := by decide
 example : (removeWallet 0 ["W1", "W2"] false st "W1").1 = .badPass ∧ (removeWallet 3 ["W1", "W2"] true st "W1").1 = .busy := by decide
+
+/-- the hypothesis `KeysNodup s.credits` is needed (a test, by evaluation): with a second, shadowed entry under the key of
+    W1's credit that pays W2's script hash, the scan for W2 erases the key — W1's credit is gone although `AMap.get`
+    (hence `Inv`) never saw the shadowed entry -/
+example : let s : Store := { credits := [(k1, ⟨500, false, false, .standard, 0, "A1", none⟩),
+                                        (k1, ⟨1, false, false, .standard, 0, "A2", none⟩)] }
+    AMap.get s.credits k1 = some ⟨500, false, false, .standard, 0, "A1", none⟩ ∧
+    (removeStep 20000 ctx "W2" ["A2"] s).map (fun o => AMap.get o.s.credits k1) = some none := by decide
 
 end MW.Props.C08
